@@ -64,6 +64,9 @@ z3.RecAddDefinition(F_repeat, [_rs, _rn], z3.If(_rn <= 0, z3.StringVal(""), z3.C
 F_lower = z3.Function("str_lower", z3.StringSort(), z3.StringSort())
 
 
+F_float_eq_int = z3.Function("float_eq_int", TAbs("Float").z3(), z3.IntSort(), z3.BoolSort())
+
+
 def int_to_str(t):
     return z3.If(t >= 0, z3.IntToStr(t), z3.Concat(z3.StringVal("-"), z3.IntToStr(-t)))
 
@@ -347,6 +350,19 @@ def list_contains(v, x):
 
 def val_eq(a: Val, b: Val):
     "python == as a z3 Bool"
+    if (isinstance(a, VRec) and a.sort.nm == "PyVal") != (isinstance(b, VRec) and b.sort.nm == "PyVal"):
+        if not (isinstance(a, VRec) and a.sort.nm == "PyVal"):
+            a, b = b, a
+        k = a.sort.get(a.t, "kind")
+        if isinstance(b, VNone):
+            return k == 0
+        if isinstance(b, VStr):
+            return z3.And(k == 1, a.sort.get(a.t, "s") == b.t)
+        if isinstance(b, (VInt, VBool)):
+            bi = coerce(b, Int).t
+            return z3.Or(z3.And(k == 2, a.sort.get(a.t, "i") == bi), z3.And(k == 3, z3.If(a.sort.get(a.t, "b"), 1, 0) == bi),
+                         z3.And(k == 4, F_float_eq_int(a.sort.get(a.t, "f"), bi)))
+        return z3.BoolVal(False)
     if isinstance(a, VUnion) or isinstance(b, VUnion):
         if not isinstance(a, VUnion):
             a, b = b, a
